@@ -174,6 +174,72 @@ def gen_weights(rng):
   return [rng.choice(WEIGHT_POOL) for _ in range(n)]
 
 
+def gen_where(rng, prim):
+  """A `where` filter of the modelled family (what a filter can see of a node: kind 0 float / 1 single
+  choice / 2 multi-choice node / 3 subchoice; the chosen candidate; the subchoice index)."""
+  if prim == 'mutSwap':
+    return rng.choice([['any'], ['kinds', [2]], ['kinds', [0, 1, 3]], ['not', ['kinds', [2]]], ['kinds', [2, 3]]])
+
+  def atom():
+    k = rng.below(6)
+    if k == 0:
+      return ['kinds', rng.sample([0, 1, 2, 3], rng.randint(1, 3))]
+    if k == 1:
+      return ['kinds', [rng.choice([0, 1, 2, 3])]]
+    if k == 2:
+      return ['valueLt', rng.randint(1, 3)]
+    if k == 3:
+      return ['valueEq', rng.below(3)]
+    if k == 4:
+      return ['indexEq', rng.below(3)]
+    return ['any']
+  k = rng.below(5)
+  if k == 0:
+    return ['not', atom()]
+  if k == 1:
+    return ['and', atom(), atom()]
+  return atom()
+
+
+def make_where(f):
+  """The Python callable for a filter of the family (robust on nodes without a decision point)."""
+  def info(d):
+    import pyglove as pg
+    sp = d.spec
+    if isinstance(sp, pg.geno.Float):
+      return (0, 0, 0)
+    if isinstance(sp, pg.geno.Choices):
+      if sp.is_subchoice:
+        return (3, d.value, sp.subchoice_index)
+      if sp.num_choices == 1:
+        return (1, d.value, 0)
+      return (2, 0, 0)
+    return None
+
+  def ev(f, n):
+    h = f[0]
+    if h == 'any':
+      return True
+    if h == 'kinds':
+      return n[0] in f[1]
+    if h == 'valueLt':
+      return n[1] < f[1]
+    if h == 'valueEq':
+      return n[1] == f[1]
+    if h == 'indexEq':
+      return n[2] == f[1]
+    if h == 'not':
+      return not ev(f[1], n)
+    if h == 'and':
+      return ev(f[1], n) and ev(f[2], n)
+    raise ValueError(f)
+
+  def where(d):
+    n = info(d)
+    return True if n is None else bool(ev(f, n))
+  return where
+
+
 class ExprGen:
   """Operator expressions from the combinator grammar (depth <= 4), mostly well-typed:
   `fit` tracks whether every element still carries a reward (Top/Bottom need it), segment-wise
@@ -231,6 +297,8 @@ class ExprGen:
       if r.chance(0.15):
         cuts = r.shuffle(cuts + [r.below(7)])
       return ['seq', self.two_parents(fit), ['prim', k, cuts]]
+    if k in ('mutUniform', 'mutSwap') and r.chance(0.35):
+      return ['prim', k, gen_where(r, k)]
     return ['prim', k]
 
   def expr(self, depth, fit=True):
@@ -631,9 +699,9 @@ class C14(Prop):
     if h == 'prim':
       name = e[1]
       if name == 'mutUniform':
-        return mutators.Uniform(seed=seed())
+        return mutators.Uniform(where=make_where(e[2]) if len(e) > 2 else None, seed=seed())
       if name == 'mutSwap':
-        return mutators.Swap(seed=seed())
+        return mutators.Swap(where=make_where(e[2]) if len(e) > 2 else None, seed=seed())
       if name == 'selRandom':
         return selectors.Random(nval(e[2]), replacement=e[3], seed=seed())
       if name == 'selSample':
@@ -987,7 +1055,7 @@ class C14(Prop):
         excused = (num_parents is not None and len(ins) != num_parents) or (
             c['cls'] == 'Segmented' and self.bad_cuts(c['op'], case['spec'])) or (
                 c['cls'] == 'Uniform' and c['mod'] == 'mutators' and c['err'] == 'RuntimeError'
-                and spec_stats(case['spec'])['points'] == 0)
+                and (spec_stats(case['spec'])['points'] == 0 or c['op'].where is not None))
         if not excused and all(self.is_valid(spec, d) and self.is_aligned(spec, d) for d in ins):
           fail('raises-on-valid-parents:%s:%s' % (c['cls'], c['err']),
                '%s raised %s on valid parents %r' % (c['cls'], c['err'], ins))
@@ -1328,6 +1396,8 @@ class C14(Prop):
         h.append('spec:' + k)
     for p in sorted(set(expr_prims(case['expr']))):
       h.append('prim:' + p)
+    if '"kinds"' in json.dumps(case['expr']) or '"valueLt"' in json.dumps(case['expr']) or '"indexEq"' in json.dumps(case['expr']) or '"valueEq"' in json.dumps(case['expr']):
+      h.append('mutator-with-where-filter')
     for p in sorted(set(expr_heads(case['expr']))):
       if p != 'prim':
         h.append('comb:' + p)
